@@ -384,8 +384,12 @@ theorem pySliceFrom_nonneg {α} {i : Int} (h : 0 ≤ i) (l : List α) : pySliceF
 theorem convertDict_drop {d : Json} {v : Int} (ms : List Mapping) (hv : effectiveVersion d = some v)
     (h1 : 1 ≤ v) : convertDict d ms = runSteps (ms.drop (v - 1).toNat) v d := by
   rcases effectiveVersion_obj hv with ⟨kvs, rfl, hs⟩
-  simp only [convertDict, hs, bindE_ok]
+  simp only [convertDict, hs, bindE_ok, show ¬ v < 1 by omega, if_false]
   rw [pySliceFrom_nonneg (by omega)]
+
+theorem nonPositiveVersion_int {v : Int} (h : 1 ≤ v) : nonPositiveVersion (.int v) = false := by
+  simp only [nonPositiveVersion, versionInt, decide_eq_false_iff_not]
+  omega
 
 /-! ### the Bool equality used by the executable laws is sound -/
 
